@@ -295,14 +295,14 @@ def splitRecords (start endIncl : Nat) : List RangeRec → Option (List RangeRec
       | none => rest
 
 /-- `split_coverage(coverage, start, end)`; `none` = panic (`assert!(start <= end)`, slice index
-out of range, `end - 1` underflow inside the closure, or a trap in `split_range_record`). -/
+out of range, or a trap in `split_range_record`).  An empty range gives an empty table in both
+formats (format 2: `if start == end { Vec::new() }`, since /repo 5c740c8). -/
 def splitCoverage (c : Coverage) (start end_ : Nat) : Option Coverage :=
   if start > end_ then none else
   match c with
   | .fmt1 xs => if end_ > xs.length then none else some (.fmt1 ((xs.drop start).take (end_ - start)))
   | .fmt2 rs =>
-    if rs.isEmpty then some (.fmt2 []) else
-    if end_ = 0 then none else
+    if start = end_ then some (.fmt2 []) else
     (splitRecords start (end_ - 1) rs).map .fmt2
 
 /-! ## PairPos format 1 at the level "coverage + one pair set per covered glyph" -/
@@ -374,5 +374,171 @@ and the per-pair-set `(object id, size of the pair set and its device tables)` l
 def ppf1SplitPoints (coverageSize : Nat) (pairSets : List (Nat × Nat)) : Option (List Nat) :=
   let st := ppf1Loop coverageSize ⟨4, 10, [], []⟩ 0 pairSets
   if st.points.isEmpty then none else some (st.points.reverse ++ [pairSets.length])
+
+/-! ## the split loop shared by all three splitters -/
+
+/-- `let mut prev_split = 0; for next_split in split_points { new.push(split_off(prev_split,
+next_split)); prev_split = next_split; }` -/
+def splitLoop {S : Type} (f : Nat → Nat → Option S) (prev : Nat) : List Nat → Option (List S)
+  | [] => some []
+  | p :: ps =>
+    match f prev p, splitLoop f p ps with
+    | some a, some rest => some (a :: rest)
+    | _, _ => none
+
+/-! ## PairPos format 2 at the level "coverage + two class definitions + class1 × class2 matrix"
+(`graph/splitting/pairpos.rs::split_off_ppf2`; value records are opaque) -/
+
+structure PairPos2 (V : Type) where
+  cov : Coverage
+  classDef1 : ClassDef
+  classDef2 : ClassDef
+  /-- `class1_records`: one row per class-1 value, one entry per class-2 value -/
+  rows : List (List V)
+
+/-- reference lookup of `(g1, g2)` in one subtable (OpenType / HarfBuzz `PairPosFormat2::apply`):
+`g1` must be covered; the two classes index the matrix; an index outside the matrix is no match. -/
+def PairPos2.lookup {V : Type} (t : PairPos2 V) (g1 g2 : Nat) : Option V :=
+  match t.cov.get g1 with
+  | none => none
+  | some _ =>
+    match t.rows[t.classDef1.get g1]? with
+    | none => none
+    | some row => row[t.classDef2.get g2]?
+
+/-- `split_off_ppf2(graph, subtable, start, end, _)`: the covered glyphs whose class-1 value lies in
+`start..end` (`coverage.iter().filter_map(..)` collected into a `HashMap`), a new coverage table and
+a new class definition 1 (classes shifted down by `start`, `saturating_sub`) built from that map,
+class definition 2 reused, rows `start..end` copied.  `none` = `end - start` underflow. -/
+def splitOffPpf2 {V : Type} (t : PairPos2 V) (start end_ : Nat) : Option (PairPos2 V) :=
+  if end_ < start then none else
+  let classMap := t.cov.glyphs.filterMap (fun g =>
+    let c := t.classDef1.get g
+    if start ≤ c ∧ c < end_ then some (g, c - start) else none)
+  some ⟨buildCoverage (classMap.map (·.1)), buildClassDef classMap, t.classDef2,
+    (t.rows.drop start).take (end_ - start)⟩
+
+/-- the split loop of `split_pair_pos_format_2` -/
+def splitPpf2Go {V : Type} (t : PairPos2 V) (prev : Nat) (pts : List Nat) : Option (List (PairPos2 V)) :=
+  splitLoop (splitOffPpf2 t) prev pts
+
+def firstMatch2 {V : Type} (ts : List (PairPos2 V)) (g1 g2 : Nat) : Option V :=
+  ts.findSome? (fun t => t.lookup g1 g2)
+
+/-! ## MarkBasePos format 1 (`graph/splitting/mark2base.rs::split_off_mark_pos`; anchors opaque) -/
+
+structure MarkBase (A : Type) where
+  markCov : Coverage
+  baseCov : Coverage
+  /-- `mark_class_count` -/
+  classCount : Nat
+  /-- `mark_array`: `(mark_class, anchor)` per mark coverage index -/
+  marks : List (Nat × A)
+  /-- `base_array`: per base coverage index one optional anchor per mark class -/
+  bases : List (List (Option A))
+
+/-- reference lookup of `(mark, base)` (HarfBuzz `MarkBasePosFormat1::apply` /
+`MarkArray::apply`): both covered, the mark's class selects the base anchor; a null base anchor is
+no match. -/
+def MarkBase.lookup {A : Type} (t : MarkBase A) (m b : Nat) : Option (A × A) :=
+  match t.markCov.get m, t.baseCov.get b with
+  | some mi, some bi =>
+    match t.marks[mi]?, t.bases[bi]? with
+    | some (cls, am), some row =>
+      match row[cls]? with
+      | some (some ab) => some (am, ab)
+      | _ => none
+    | _, _ => none
+  | _, _ => none
+
+/-- `iter().enumerate().filter(|(i, _)| set.contains(i))` -/
+def filterIdx {α : Type} (sel : Nat → Bool) (i : Nat) : List α → List α
+  | [] => []
+  | x :: xs => if sel i then x :: filterIdx sel (i + 1) xs else filterIdx sel (i + 1) xs
+
+/-- `mark_glyphs_by_cov_id.contains(&i)`: the mark record `i` has a class in `start..end`
+(`get_class_info` skips classes `>= mark_class_count`) -/
+def markSel {A : Type} (t : MarkBase A) (start end_ : Nat) (i : Nat) : Bool :=
+  match t.marks[i]? with
+  | some p => decide (start ≤ p.1 ∧ p.1 < end_ ∧ p.1 < t.classCount)
+  | none => false
+
+/-- `split_off_mark_pos(graph, subtable, start, end, class_info)`: `mark_glyphs_by_cov_id` is the
+set of mark-record indices whose class lies in `start..end` (`get_class_info` drops classes
+`>= mark_class_count`); the mark coverage and the mark array are both filtered by that index set
+(classes shifted down by `start`), the base coverage is reused, every base record keeps its anchors
+for classes `start..end`.  `none` = `end - start` underflow. -/
+def splitOffMarkBase {A : Type} (t : MarkBase A) (start end_ : Nat) : Option (MarkBase A) :=
+  if end_ < start then none else
+  some ⟨buildCoverage (filterIdx (markSel t start end_) 0 t.markCov.glyphs), t.baseCov, end_ - start,
+    (filterIdx (markSel t start end_) 0 t.marks).map (fun p => (p.1 - start, p.2)),
+    t.bases.map (fun row => (row.drop start).take (end_ - start))⟩
+
+def splitMarkBaseGo {A : Type} (t : MarkBase A) (prev : Nat) (pts : List Nat) : Option (List (MarkBase A)) :=
+  splitLoop (splitOffMarkBase t) prev pts
+
+def firstMatchMB {A : Type} (ts : List (MarkBase A)) (m b : Nat) : Option (A × A) :=
+  ts.findSome? (fun t => t.lookup m b)
+
+/-! ## the size heuristic of `split_pair_pos_format_2` (value formats without device tables) -/
+
+/-- `count_num_ranges(glyphs)` on a sorted glyph set: number of maximal runs -/
+def countRangesGo (prev : Nat) : List Nat → Nat
+  | [] => 0
+  | g :: gs => (if g == prev + 1 then 0 else 1) + countRangesGo g gs
+
+def countRanges : List Nat → Nat
+  | [] => 0
+  | g :: gs => 1 + countRangesGo g gs
+
+/-- `consecutive_gids` of `ClassDefSizeEstimator::new`: every covered glyph follows its predecessor -/
+def consecutiveGids : List Nat → Bool
+  | [] => true
+  | [_] => true
+  | a :: b :: rest => (a + 1 == b) && consecutiveGids (b :: rest)
+
+/-- `ClassDefSizeEstimator` for the `(glyph, class1)` list of the coverage table -/
+structure Ppf2Est where
+  consecutive : Bool
+  gc : List (Nat × Nat)
+
+/-- the `BTreeSet` of glyphs of one class -/
+def Ppf2Est.glyphsOf (e : Ppf2Est) (c : Nat) : List Nat :=
+  sortDedup ((e.gc.filter (fun p => p.2 == c)).map (·.1))
+
+/-- `increment_coverage_size(class)` -/
+def Ppf2Est.incCov (e : Ppf2Est) (c : Nat) : Nat := 2 * (e.glyphsOf c).length
+
+/-- `increment_class_def_size(class)`; class 0 has no entry in `num_ranges_per_class` -/
+def Ppf2Est.incClassDef (e : Ppf2Est) (c : Nat) : Nat :=
+  let ranges := if c = 0 then 0 else countRanges (e.glyphsOf c)
+  let s := 6 * ranges
+  if e.consecutive then min s ((e.glyphsOf c).length * 2) else s
+
+structure Ppf2Acc where
+  accumulated : Nat
+  covSize : Nat
+  cd1Size : Nat
+  points : List Nat   -- reversed
+
+/-- one iteration of the size loop for class-1 value `idx`; `BASE_SIZE = 16` -/
+def ppf2Step (e : Ppf2Est) (recSize cd2Size : Nat) (st : Ppf2Acc) (idx : Nat) : Ppf2Acc :=
+  let covSize := st.covSize + e.incCov idx
+  let cd1Size := st.cd1Size + e.incClassDef idx
+  let accumulated := st.accumulated + recSize
+  let largest := max (max covSize cd1Size) cd2Size
+  let total := accumulated + covSize + cd1Size + cd2Size - largest
+  if total > 65535 then
+    { accumulated := 16 + recSize, covSize := 4 + e.incCov idx, cd1Size := 4 + e.incClassDef idx,
+      points := idx :: st.points }
+  else { accumulated := accumulated, covSize := covSize, cd1Size := cd1Size, points := st.points }
+
+/-- split points of `split_pair_pos_format_2` (no device tables): `gc` lists the covered glyphs
+with their class-1 value in coverage order, `recSize = class2_count * (len(vf1) + len(vf2))`,
+`cd2Size` the byte size of class definition 2.  `none` = nothing to split. -/
+def ppf2SplitPoints (gc : List (Nat × Nat)) (class1Count recSize cd2Size : Nat) : Option (List Nat) :=
+  let e : Ppf2Est := ⟨consecutiveGids (gc.map (·.1)), gc⟩
+  let st := (List.range class1Count).foldl (ppf2Step e recSize cd2Size) ⟨16, 4, 4, []⟩
+  if st.points.isEmpty then none else some (st.points.reverse ++ [class1Count])
 
 end FontVerif.Layout
